@@ -81,7 +81,11 @@ def _fs_models(it, fs, target):
     open_files = []
 
     def m_open(interp, name, mode="r", *a, **k):
-        if "w" not in mode:
+        if "x" in mode:
+            # exclusive creation: fails when anything - also a leftover of an interrupted run - is already there
+            if name in fs.files:
+                raise PyRaise(FileExistsError(17, "File exists", name))
+        elif "w" not in mode:
             raise EngineError("ghost fs: only writing is modelled")
         fs.files[name] = ("partial", "new")          # created / truncated
         fs.check(target, "open(%s,%r)" % (name, mode))
@@ -110,16 +114,23 @@ def _fs_models(it, fs, target):
     it.models[os.rename] = m_replace
 
 
-@obligation("save/crash_invariant", params=[{"fmt": f, "existing": e} for f in ("pickle", "json") for e in (False, True)],
-            desc="_save_to_pickle / _save_to_json over the ghost file system, target absent or holding an older complete version: after "
-                 "EVERY effect (open, each write/dump, close, replace) the target is absent or complete; at the end it is the complete new version")
-def ob_crash(fmt, existing):
+@obligation("save/crash_invariant", params=[{"fmt": f, "existing": e, "leftover": lo} for f in ("pickle", "json") for e in (False, True)
+                                            for lo in (False, True)],
+            desc="_save_to_pickle / _save_to_json over the ghost file system, target absent or holding an older complete version, with or "
+                 "without LEFTOVERS of an interrupted earlier save (any other file in the directory in a partial state, e.g. a stale "
+                 "temporary): the save succeeds, after EVERY effect (open, each write/dump, close, replace) the target is absent or "
+                 "complete; at the end it is the complete new version")
+def ob_crash(fmt, existing, leftover=False):
     def body(c, it):
         from pyphysim.simulations.results import SimulationResults
         fs = GhostFS()
         target = "partial_results/res_unpack_0." + fmt
         if existing:
             fs.files[target] = ("complete", "old")
+        if leftover:
+            # whatever an interrupted earlier save of the same target may have left behind: the conventional temporary names
+            for nm in (target + ".tmp", target + ".part", target + "~", target + ".new"):
+                fs.files[nm] = ("partial", "stale")
         _fs_models(it, fs, target)
         res = SimulationResults()
         # to_json is the serialisation (C17): here only the order of file-system effects matters
@@ -210,6 +221,24 @@ def ob_resume(rep_max, c0):
             goals.append(Goal("saved view is the final view", lift(saved[-1][1]) == lift(tot)))
         return goals
     return verify(body, check_side=False, timeout_ms=20000)
+
+
+@obligation("restart/same_object_after_an_interruption", params=[{"at": a} for a in (1, 2, 3)], timeout=600,
+            desc="history (shared with C05): simulate() interrupted by an exception from the a-th execution of the user's iteration, then "
+                 "simulate() again on the SAME runner object: every combination ends with exactly rep_max repetitions, each counted once "
+                 "- nothing of the interrupted run is kept in memory and counted twice")
+def ob_restart_same(at):
+    from . import C05 as c05
+    return c05.ob_restart_same_object(at)
+
+
+@obligation("resume/loop_inductive_step_and_periodic_save", timeout=300,
+            desc="(shared with C05) inductive step of the repetition loop for a symbolic rep_max from an arbitrary saved state: counts and "
+                 "merged value advance together, and the state offered to the periodic save has count == merged repetitions - so a file "
+                 "written at any repetition boundary resumes without losing or double-counting a repetition")
+def ob_loop_shared():
+    from . import C05 as c05
+    return c05.ob_loop_inductive("guard_and_body")
 
 
 # ------------------------------------------------------------------ refusal
